@@ -1,22 +1,63 @@
-//! Copies the daemon's zone-loading modules of the repository under test into
-//! `src/gen_daemon/` so that `main.rs` can include them with literal `#[path]`s (group `reload`,
-//! C31). The repository path is the `quandary` path dependency of the generated Cargo.toml
-//! (bin/check writes it from Cargo.toml.in, honouring VERIF_REPO).
 use std::fs;
+use std::io::Write;
 use std::path::PathBuf;
+
+// Copies the daemon's zone-loading modules of the repository under test into
+// `src/gen_daemon/` so that `main.rs` can include them with literal `#[path]`s (group `reload`,
+// C31). The repository path is the `quandary` path dependency of the generated Cargo.toml
+// (bin/check writes it from Cargo.toml.in, honouring VERIF_REPO).
 
 const FILES: [&str; 4] = ["args.rs", "config.rs", "run.rs", "zones.rs"];
 
-fn main() {
+
+// Build script of the harness.
+//
+// Feature `pool` (C29): copies `src/thread.rs` of the repository under test into OUT_DIR with
+// ONLY its `use std::sync…`, `use std::thread…` and `use std::time…` imports rewritten to the
+// shim in `crate::pool_shim` (a Mutex/Condvar/thread/Instant implementation on top of the
+// `shuttle` controlled scheduler), inner doc comments turned into ordinary comments (they are
+// not allowed inside `include!`), and a probe sub-module appended that lets the harness read the
+// private records (`GroupRecords`, `PoolRecords`) at lock releases.  Every other line is the
+// repository's code, unmodified.
+
+const PROBE: &str = r#"
+
+/// appended by harness/build.rs — read-only access to the private records for the trace log
+pub mod verif_probe {
+    use super::*;
+    /// `G <thread_count> <shutting_down> <pools.len()>` / `P <queue.len()> <available_workers> <shutting_down>`
+    pub fn snapshot(any: &dyn std::any::Any) -> Option<(char, usize, usize, usize)> {
+        if let Some(g) = any.downcast_ref::<GroupRecords>() {
+            Some(('G', g.thread_count, g.shutting_down as usize, g.pools.len()))
+        } else if let Some(p) = any.downcast_ref::<PoolRecords>() {
+            Some(('P', p.queue.len(), p.available_workers, p.shutting_down as usize))
+        } else {
+            None
+        }
+    }
+    /// ids of the three condition variables: shutdown_wakeup, task_wakeup, available_wakeup
+    pub fn cv_ids(group: &ThreadGroup, pool: &ThreadPool) -> [usize; 3] {
+        [group.shutdown_wakeup.id(), pool.task_wakeup.id(), pool.available_wakeup.id()]
+    }
+}
+"#;
+
+/// the repository under test = the `quandary` path dependency of the generated Cargo.toml
+fn repo_path() -> String {
     let dir = PathBuf::from(std::env::var("CARGO_MANIFEST_DIR").unwrap());
     let manifest = fs::read_to_string(dir.join("Cargo.toml")).expect("Cargo.toml");
-    let repo = manifest
+    manifest
         .lines()
         .find(|l| l.trim_start().starts_with("quandary"))
         .and_then(|l| l.split("path = \"").nth(1))
         .and_then(|r| r.split('"').next())
         .expect("quandary path dependency in Cargo.toml")
-        .to_string();
+        .to_string()
+}
+
+fn copy_daemon() {
+    let dir = PathBuf::from(std::env::var("CARGO_MANIFEST_DIR").unwrap());
+    let repo = repo_path();
     let src = PathBuf::from(&repo).join("src/bin/quandaryd");
     let dst = dir.join("src/gen_daemon");
     fs::create_dir_all(&dst).unwrap();
@@ -31,4 +72,57 @@ fn main() {
     }
     println!("cargo:rerun-if-changed=Cargo.toml");
     println!("cargo:rerun-if-changed=build.rs");
+}
+
+fn copy_thread() {
+    if std::env::var("CARGO_FEATURE_POOL").is_err() {
+        return;
+    }
+    let repo = repo_path();
+    let path = format!("{repo}/src/thread.rs");
+    println!("cargo:rerun-if-changed={path}");
+    let src = std::fs::read_to_string(&path).unwrap_or_else(|e| panic!("cannot read {path}: {e}"));
+    let mut out = String::with_capacity(src.len() + PROBE.len());
+    let (mut n_sync, mut n_thread, mut n_time) = (0, 0, 0);
+    let mut in_tests = false;
+    for line in src.lines() {
+        let t = line.trim_start();
+        if t.starts_with("#[cfg(test)]") {
+            in_tests = true; // the unit-test module at the end of the file is not part of the library
+        }
+        if in_tests {
+            continue;
+        }
+        if let Some(rest) = t.strip_prefix("use std::sync::") {
+            out.push_str("use crate::pool_shim::sync::");
+            out.push_str(rest);
+            n_sync += 1;
+        } else if let Some(rest) = t.strip_prefix("use std::thread::") {
+            out.push_str("use crate::pool_shim::thread::");
+            out.push_str(rest);
+            n_thread += 1;
+        } else if let Some(rest) = t.strip_prefix("use std::time::") {
+            out.push_str("use crate::pool_shim::time::");
+            out.push_str(rest);
+            n_time += 1;
+        } else if let Some(rest) = t.strip_prefix("//!") {
+            out.push_str("//");
+            out.push_str(rest);
+        } else {
+            out.push_str(line);
+        }
+        out.push('\n');
+    }
+    if n_sync != 1 || n_thread != 1 || n_time != 1 {
+        panic!("{path}: expected exactly one `use std::sync::…`, `use std::thread::…` and `use std::time::…` line (found {n_sync}, {n_thread}, {n_time}); the import rewriting of harness/build.rs must be adapted");
+    }
+    out.push_str(PROBE);
+    let dest = std::path::Path::new(&std::env::var("OUT_DIR").unwrap()).join("thread_under_test.rs");
+    let mut f = std::fs::File::create(&dest).unwrap();
+    f.write_all(out.as_bytes()).unwrap();
+}
+
+fn main() {
+    copy_daemon();
+    copy_thread();
 }
